@@ -58,6 +58,12 @@ unsafe fn check_mark_protocol(h: &Heap, id: u8) {
         let c = LOG.pos(Ev::Compact(id));
         assert!(g.is_some() != c.is_some());
         assert!(g.or(c).unwrap() > m);
+        // the list that was collected is compacted once IT has grown RESET_LIMIT times (otherwise
+        // it doubles at every full collection without bound), and no other list is touched
+        let own_grow_count = if id == 0 { h.memory_free_list.grow_count } else { h.vector_free_list.grow_count };
+        assert!(c.is_some() == (own_grow_count > RESET_LIMIT), "compaction decided by the wrong counter");
+        let other = 1 - id;
+        assert!(LOG.pos(Ev::Grow(other)).is_none() && LOG.pos(Ev::Compact(other)).is_none());
         // the caller's root sets reached the marker
         assert!(MARK_ROOTS_LEN == 2 && MARK_GLOBALS_LEN == 1 && MARK_TLS_LEN == 3);
     }
